@@ -300,6 +300,42 @@ def rkc (checkSafe : Bool) (ws : List String) : Option String := do
     | _ => none
   | _ => none
 
+/-! ### op `rkq`: concurrent first uses of one statement (RoutingCache.Conc), a conducted schedule -/
+
+abbrev CEv := RoutingCache.Conc.Ev Marshal.GoVal
+
+def pCEv (ws : List String) : Option CEv :=
+  match ws with
+  | ["ok"] => some .ansOk
+  | ["fail"] => some .ansFail
+  | "go" :: g :: n :: r => do
+      let g ← g.toNat?
+      let n ← n.toNat?
+      let (vs, rest) ← pVals n r
+      if rest.isEmpty then some (.go g vs) else none
+  | _ => none
+
+def showCOut : RoutingCache.Conc.COut → String
+  | .errPrepare => "err:prepare"
+  | .res r => showKey true "ks" "t0" r
+
+def showCAns (l : List (Nat × RoutingCache.Conc.COut)) : String :=
+  if l.isEmpty then "-" else " , ".intercalate (l.map (fun p => "g" ++ toString p.1 ++ "=" ++ showCOut p.2))
+
+/-- rkq <proto> <stmt> / go <g> <nvals> {| V}… / ok / fail …: after every event the goroutines that returned -/
+def rkq (ws : List String) : Option String := do
+  match ws with
+  | p :: r0 =>
+    let p ← p.toNat?
+    let (st, r1) ← pStmt "t0" r0
+    match r1 with
+    | "/" :: r2 =>
+      let evs ← (splitSteps r2).mapM pCEv
+      if RoutingCache.crashes st then some "malformed-prepare"
+      else some (" ; ".intercalate ((RoutingCache.Conc.Spec.run (encOf p) st (false, []) evs).map showCAns))
+    | _ => none
+  | _ => none
+
 /-! ### op `rksz`: routing keys of components of given SIZES (boundaries of the [short] length) -/
 
 /-- byte `i` of a generated component: `(fill + i*step) mod 256` -/
@@ -438,6 +474,7 @@ def stepU (ws : List String) : String :=
       | _, _ => "bad-op"
   | "rkm" :: r => (rkm r).getD "bad-op"
   | "rkmx" :: r => (rkm r).getD "bad-op"
+  | "rkq" :: r => (rkq r).getD "bad-op"
   | "rksz" :: r => (rksz true r).getD "bad-op"
   | "rkszx" :: r => (rksz false r).getD "bad-op"
   | "rkc" :: r => (rkc true r).getD "bad-op"
